@@ -25,6 +25,21 @@ CHECKS = {
          "Every combination of main-chain length, fork depth, position of the invalid block in the candidate chain (first/middle/last) and 16 kinds of invalidity is built with real signed blocks and delivered; any delivery that is not accepted must leave tip, utxoset, chain index, stored blocks and wallet bit-identical, the wind/unwind loop must finish within 2(|old|+|new|)+2 iterations (counted by the cfg-guarded hook), and the tip must never move onto a chain containing the invalid block.",
          "Children of the invalid block are produced by a harness-side builder that treats the invalid block as accepted; the step counter is hook H1 (cfg saito_verif), which also turns a livelock into a verdict instead of a hang.",
          "DESIGN.md §3 C04"),
+ "C01": ("exploration",
+         "property-based adversarial testing: generated chain states x an edit catalogue of 19 invalid-transaction constructions, judged by an independent reference ledger, offered to both pool entry points and (inside attacker-built blocks) to block validation",
+         "Honest forked histories (fees, golden tickets, rebroadcasts; gp 4..100) put a victim node into one of the state classes fresh / after reorg / after window wrap; every catalogue edit is built from the victim's real ledger, confirmed invalid by the independent reference ledger, and must be refused by Mempool::add_transaction_if_validates, by VerificationThread::verify_tx and by add_block of an attacker-built block with 0..3 honest fillers; an honest spend must be admitted. A validator that stops gating on any one rule (signature, ownership, existence, window, double spend, overspend, type privileges) accepts at least one catalogue entry.",
+         "Staking (social_stake>0) state class is not generated. Adversary cannot forge signatures. The attacker's block is produced with the repository's Block::create, so its header is consistent with the invalid content.",
+         "DESIGN.md §3 C01"),
+ "C02": ("exploration",
+         "invariant checking over generated histories: supply recomputed in u128 from the node's own utxoset and tip header after every accepted block; per-transaction conservation in u128",
+         "After every block accepted onto the longest chain of generated honest histories (forks/reorgs, several window wraps, fees, payouts, rebroadcast with and without treasury payout multiplier and 5% cap, amounts 1..2^58) the sum of spendable in-window outputs + treasury + graveyard + unpaid + fees must equal the genesis issuance in unbounded arithmetic, and the node's own (wrapping) supply check must not abort it. Overflow-based minting by adversarial transactions is covered by C01's Overspend/OverspendWrap edits.",
+         "Supply is recomputed from the implementation's utxoset (not from the reference ledger) so that utxoset bugs show up as supply changes. Known finding F11 (u64 overflow of amount x payout multiplier) is keyed by an independent overflow predicate and excluded from generation by construction (large amounts only with zero genesis treasury).",
+         "DESIGN.md §3 C02"),
+ "C05": ("exploration",
+         "model-based testing against a reference fork-choice function: exhaustive small trees x ticket masks x timestamp profiles x all delivery orders, plus generated trees/orders with shrinking",
+         "Every tip movement must satisfy the reference rule (strictly longer, cumulative burn fee over the diverging segment >=, valid by construction, >= 2 golden tickets in every six-block window) and every delivery completing such a chain must be adopted; tip height is monotone; an orphan changes neither tip nor index. Equal-length, longer-but-lighter and ticket-poor-inside side chains are generated on purpose.",
+         "The 'must adopt' direction is asserted only for chains that also satisfy the implementation's extra start-up rule (one ticket in the first five blocks); other cases are counted as unasserted. Orphan deliveries with initial_loading_completed=false are known finding F10b.",
+         "DESIGN.md §3 C05"),
 }
 NOT_YET = {}
 
